@@ -21,6 +21,11 @@ Space (enumerated completely):
      letter-layer counts cap-1/cap/cap+1, 1296 upper-case columns (a column called 'ATM' next to the atmosphere block
      'ATM 0'), thorough: 18277/18278/18279 nodes (26+26^2+26^3) and 17575/17576 nodes (26^3, no blanks), 18276..18278
      three-letter layers - x convention x atmosphere type x justify;
+  C  the other constructors - from_gmsh (MSH 2.2 and 4.1 files), from_layermesh (duck-typed mesh), from_amesh (AMESH
+     input + segment files), inputs written by ref/meshfiles.py for nx x ny x nz boxes incl. the 39 / 99-node capacity
+     edges - x convention x atmosphere type x justify x 6 alphabets (among them one with a repeated letter and a
+     one-letter alphabet) x blanks allowed or not, each also called on an object whose own convention differs: same
+     clauses as for rectangular(), and the geometry must have the convention asked for;
   ED the library's own name-consuming edits at exhaustion: on rectangular grids 2x2 .. 7x6 over the alphabets 'xy' and
      'xyz' (4 conventions x 2 atmosphere types x blanks allowed or not), split_column / triangulate_column (subdivide_column)
      / refine repeated until no column or node name of the alphabet is free, and once more: the operation that needs a
@@ -50,8 +55,10 @@ RULE = ('name generators: every integer 0..20000 x 4 conventions x 2 justificati
         'the stated alphabet; generator calls 0..1100 (thorough 0..5000) repeated on objects that reached the options by '
         'another route (7 primers per option combination, 12 convention pairs after rectangular()). Non-trivial = the call is made with an integer/size for which the statement fixes the '
         'outcome (a name, or the naming error) - all cases are.')
-ASSUMPTIONS = ['alphabets handed to the name generators directly have no repeated letter (rectangular / add_layers remove '
-               'repeats themselves, which is exercised with chars = "abcab")',
+ASSUMPTIONS = ['alphabets handed to the name generators directly have no repeated letter; every constructor (rectangular, '
+               'from_gmsh, from_layermesh, from_amesh) and add_layers is handed a repeated-letter alphabet ("abcab") and '
+               'must still name distinctly; a one-letter alphabet is a legal custom alphabet (3 names with blanks, none '
+               'without: the naming error is then due at number 1)',
                'alphabets are alphabetic (no digits or blanks), as the property statement says',
                'capacities are those of the documented conventions: 26+26^2+26^3 letter names with blanks, 26^3-1 numbers '
                'without blanks (the all-first-letter name belongs to number 0), 99 / 999 digit names, one layer name '
@@ -76,8 +83,8 @@ LEVEL_TEXT = ('Every generator integer 0..20000 under every naming option, every
               'every option combination, the geometries and layer stacks sitting exactly on, one below and one above each '
               'capacity limit, and every 5-character name over a 6-letter alphabet are driven through the real naming code; '
               'nothing is sampled.')
-LEVEL_NOTE = ('Trusted: ref/names.py capacity formulas and (A3,I2) print. Geometries other than rectangular() (from_gmsh, '
-              'from_amesh, from_layermesh, refinement) are not constructed here; column counts between the size box and the '
+LEVEL_NOTE = ('Trusted: ref/names.py capacity formulas and (A3,I2) print; ref/meshfiles.py input writers. The constructors '
+              'from_gmsh / from_layermesh / from_amesh are driven on small rectangular plan meshes only; column counts between the size box and the '
               'capacity edges are covered by the name generators, not by building each geometry.')
 
 NMAX = 20000
